@@ -148,7 +148,7 @@ InnerCases ==
 
 (* lists *)
 PoolIdx == <<2, 5, 9, 13, 27, 50, NT + 1, NT + 6, NT + 33, NT + 34>>
-Lists == SetToSeq(UNION {[1..n -> 1..Len(PoolIdx)] : n \in 0..2} \cup {<<1, 7, 9>>, <<8, 2, 10>>, <<3, 3, 3>>, <<10, 9, 8>>})
+Lists == SetToSeq(UNION {[1..n -> 1..Len(PoolIdx)] : n \in 0..(IF Thorough THEN 3 ELSE 2)} \cup {<<1, 7, 9>>, <<8, 2, 10>>, <<3, 3, 3>>, <<10, 9, 8>>})
 ListCases ==
   Concat([q \in 1..Len(Lists) |->
     LET idx == Lists[q] enc == Concat([h \in 1..Len(idx) |-> EncExt(Vals[PoolIdx[idx[h]]])]) IN
